@@ -26,7 +26,7 @@ from typing import List, Optional, Set
 from ..cfg import CFG
 from ..model import FuncInfo, Repo, dotted, load_repo
 from ..report import AnalysisError, Report
-from ..util import body_walk, src, walk_no_nested
+from ..util import canon_func, body_walk, src, walk_no_nested
 
 P = "fickling.fickle.Pickled"
 
@@ -119,6 +119,16 @@ def _stream_calls(node: ast.AST, stream: str) -> List[ast.Call]:
 
 def check_load(repo: Repo, rep: Report):
     f = repo.func(f"{P}.load")
+    # the list the parsed opcodes are collected in, whatever it is called: the receiver of `.append(Opcode(...))`
+    lnames = {n.func.value.id for n in ast.walk(f.node) if isinstance(n, ast.Call) and isinstance(n.func, ast.Attribute) and n.func.attr == "append" and isinstance(n.func.value, ast.Name) and n.args and isinstance(n.args[0], ast.Call) and dotted(n.args[0].func) == "Opcode"}
+    ren = {}
+    if len(lnames) == 1:
+        ren[next(iter(lnames))] = "opcodes"
+    for n in ast.walk(f.node):
+        if isinstance(n, ast.For) and isinstance(n.iter, ast.Call) and dotted(n.iter.func) == "genops" and isinstance(n.target, ast.Tuple) and n.target.elts and isinstance(n.target.elts[0], ast.Name):
+            ren[n.target.elts[0].id] = "info"
+    if ren:
+        f = canon_func(f, rename=ren)
     params = f.params()
     stream = params[0]
     file = f.file
@@ -338,6 +348,16 @@ def check_make_stream(repo: Repo, rep: Report):
 
 def check_stack_loop(repo: Repo, rep: Report):
     f = repo.func("fickling.fickle.StackedPickle.load")
+    # canonical names for the two locals the rule talks about: the parse result and the list it is collected in
+    ren = {}
+    for n in ast.walk(f.node):
+        if isinstance(n, ast.Assign) and isinstance(n.value, ast.Call) and dotted(n.value.func) == "Pickled.load" and len(n.targets) == 1 and isinstance(n.targets[0], ast.Name):
+            ren[n.targets[0].id] = "p"
+    for n in ast.walk(f.node):
+        if isinstance(n, ast.Call) and isinstance(n.func, ast.Attribute) and n.func.attr == "append" and isinstance(n.func.value, ast.Name) and n.args and isinstance(n.args[0], ast.Name) and n.args[0].id in ren:
+            ren[n.func.value.id] = "pickles"
+    if ren:
+        f = canon_func(f, rename=ren)
     stream = f.params()[0]
     file = f.file
     ms = [n for n in f.node.body if isinstance(n, ast.Assign) and isinstance(n.value, ast.Call) and dotted(n.value.func) == "Pickled.make_stream" and dotted(n.targets[0]) == stream and dotted(n.value.args[0]) == stream]
